@@ -153,12 +153,20 @@ def GoodBoundaries (s : MsgState) : Prop :=
 
 theorem givenBoundary_good (s : MsgState) (p : PW) (cached : Bytes) (hb : GoodGiven s.boundary)
     (hc : GoodGiven cached) : GoodGiven (givenBoundary s p cached) := by
-  unfold givenBoundary; split <;> assumption
+  unfold givenBoundary
+  split
+  · assumption
+  · split
+    · exact Or.inl rfl
+    · assumption
 
 theorem openLayer_ok (s : MsgState) (p : PW) (mt cached fresh : Bytes) (h : p.Ok)
     (hb : GoodGiven s.boundary) (hc : GoodGiven cached) : (openLayer s p mt cached fresh).1.Ok := by
   unfold openLayer
-  have := startMP_ok p mt (givenBoundary s p cached) fresh h (givenBoundary_good s p cached hb hc)
+  have hm : (markUser s p).Ok := by
+    unfold PW.Ok at h ⊢
+    simpa using h
+  have := startMP_ok (markUser s p) mt (givenBoundary s p cached) fresh hm (givenBoundary_good s p cached hb hc)
   simp only []
   split
   · exact str_ok _ _ this
